@@ -36,11 +36,14 @@ CostOf(c) ==
     [] c.act = "SetUser" -> 2
     [] OTHER -> 0
 
-\* Not asked: P<NUL>P against a credential that was BORN bcrypt.  bcrypt's key schedule repeats the key, so such a
-\* credential verifies P<NUL>P as well; whether that "matches the stored credential" is bcrypt's own definition and the
-\* statement does not settle it.  Against an UPGRADED credential it is asked: the legacy format rejected it.
+\* Not asked: P<NUL>P (and P72 followed by more) against a credential that was BORN bcrypt.  bcrypt's key schedule
+\* repeats the key and reads 72 bytes, so such a credential verifies these as well; whether that "matches the stored
+\* credential" is bcrypt's own definition and the statement does not settle it.  Against an UPGRADED credential it is
+\* asked: the legacy format rejected them, and the upgrade must not change which passwords are accepted.
 Asked == LET c == last'.call IN
-           ~(c.act = "Validate" /\ c.ck = "cyc" /\ store[c.n].fmt = "bcrypt" /\ store[c.n].from # "upgrade")
+           ~( /\ c.act = "Validate"
+              /\ (c.ck = "cyc" \/ (c.ck = "ext" /\ store[c.n].pw \in Pw72))
+              /\ store[c.n].fmt = "bcrypt" /\ store[c.n].from # "upgrade" )
 
 Record == /\ Asked
           /\ h' = Append(h, [call |-> last'.call, reply |-> last'.reply, st |-> Proj'])
@@ -73,12 +76,12 @@ GenInit == /\ Init
 \* login is 6 of ~200 successors otherwise) - it carries no meaning.
 SetUserW == SetUser /\ last'.call.sp = "upper" /\ last'.call.perms \in {{}, {Logon}}
 Walk  == /\ Mode = "walk" /\ Len(h) < Depth + 1
-         /\ \E k \in 1..10 :
+         /\ \E k \in 1..5 :
               /\ w' = k
-              /\ \/ k <= 10 /\ LoginRight
-                 \/ k <= 2 /\ Validate
-                 \/ k <= 10 /\ SetPlain
-                 \/ k <= 4 /\ (Grant \/ Revoke)
+              /\ \/ k <= 5 /\ LoginRight
+                 \/ k <= 1 /\ Validate
+                 \/ k <= 5 /\ SetPlain
+                 \/ k <= 2 /\ (Grant \/ Revoke)
                  \/ k <= 1 /\ SetUserW
          /\ Record /\ UNCHANGED <<done, ph, todo>>
 Cells == /\ Mode = "cells" /\ Len(h) < Depth + 1
